@@ -43,6 +43,18 @@ def infeasible(rng, d, kind):
         m = np.max(np.abs(np.polynomial.polynomial.polyval(xs, p)))
         if m < 1.02:
             p = p * (1.05 / m)
+    elif kind == "above-1-everywhere" and d % 2 == 0:
+        # |p| > 1 on the WHOLE interval (even, zero-free): 1 - p^2 then has no root on the unit circle at all
+        c = np.zeros(d + 1)
+        c[0] = float(rng.choice([-1, 1])) * float(rng.uniform(1.05, 1.8))
+        for k in range(2, d + 1, 2):
+            c[k] = float(rng.normal()) * 0.25 * (abs(c[0]) - 1.03) / max(1, d // 2)
+        if d >= 2 and rng.random() < 0.5:
+            c[2:] = 0.0
+            c[d] = float(rng.choice([-1, 1])) * float(rng.uniform(0.2, 0.9)) * (abs(c[0]) - 1.03)
+        p = np.array(P.mono_from_cheb(c))
+        xs = np.cos(np.linspace(0, math.pi, 2001))
+        assert np.min(np.abs(np.polynomial.polynomial.polyval(xs, p))) > 1.02
     else:  # all roots of 1 - F F~ on the unit circle: +-T_d scaled to modulus exactly / slightly above 1
         c = np.zeros(d + 1)
         c[d] = float(rng.choice([1.0, -1.0, 1.02, 1.3]))
@@ -82,11 +94,24 @@ def error_cases(ctx, A, C, R, rng, tier):
     n = 3 if tier == "quick" else 12
     # (1) infeasible real polynomials
     for d in (list(range(1, 13)) + [16, 20, 25, 30]):
-        for kind in ("scaled", "local", "unit-circle-roots"):
-            for _ in range(1 if tier == "quick" else 3):
+        for kind in ("scaled", "local", "unit-circle-roots", "above-1-everywhere"):
+            for _ in range((1 if tier == "quick" else 3) * (0 if (kind == "above-1-everywhere" and d % 2) else 1)):   # an odd polynomial vanishes at 0
                 p = infeasible(rng, d, kind)
                 so = str(rng.choice(["Wx", "Wz"]))
                 bv = [int(x) for x in rng.integers(0, 2, size=64)]
+                if rng.random() < 0.25:
+                    # the lower-level entry point on the same request: only its error class and finiteness are judged here
+                    with P.forced_seed(bv):
+                        out, val = classify(lambda: A.angle_sequence(list(p)))
+                    ctx.count("infeasible:angle_sequence:%s:%s" % (kind, out))
+                    ctx.case(["infeasible-as", p, bv[:8]], True, {"kind": kind, "degree": d, "entry": "angle_sequence", "outcome": out})
+                    if out == "returned":
+                        if not P.finite([float(x) for x in val]):
+                            ctx.violation("c19:nonfinite-phases:angle_sequence:" + kind, "infeasible request answered with NaN / infinite phases",
+                                          {"call": "angle_sequence", "poly": p, "seed_bits": bv, "kind": kind})
+                    elif out not in DOCUMENTED:
+                        ctx.violation("c19:undocumented-exception:%s:angle_sequence:%s" % (out, kind), "infeasible request ends in %s (%s), not in a documented error class" % (out, val),
+                                      {"call": "angle_sequence", "poly": p, "seed_bits": bv, "kind": kind})
                 with P.forced_seed(bv):
                     out, val = classify(lambda: A.QuantumSignalProcessingPhases(list(p), signal_operator=so))
                 ctx.count("infeasible:%s:%s" % (kind, out))
